@@ -241,6 +241,12 @@ def biased_family(draw):
         call['kwargs'] = [['p%d' % i, {'o': args[i]}]
                           for i in range(cut, k)]
         call['args'] = call['args'][:cut]
+        if cut == 0 and k >= 2 and draw(st.booleans()):
+            # all arguments by keyword: overloads may declare the
+            # parameters in different orders
+            for d in defs:
+                if draw(st.booleans()):
+                    d['params'] = list(draw(st.permutations(d['params'])))
         if draw(st.booleans()):
             # give the keyword-passed parameters defaults in some overloads
             for d in defs:
